@@ -241,6 +241,9 @@ def run(ctx, rep):
     balance.rule_unw(ctx, rep)
     rule_funnel(ctx, rep)
     rule_destroy(ctx, rep)
+    from . import c03
+
+    c03.rule_gate_def(ctx, rep)  # shape S3 (an owner frees after observing `count == 1`) is only sound if that observation is the Acquire `== 1` gate over Release decrements
     rule_moves(ctx, rep)
     balance.rule_writeback(ctx, rep)
     rep.floor("R-WRITEBACK", 1, "OffsetArc::make_mut")
